@@ -11,7 +11,10 @@ for n in "${names[@]}"; do
   wt=/tmp/reseed_$$_$n
   git -C /repo worktree add --detach $wt HEAD >/dev/null 2>&1 || { echo "$n: cannot create worktree"; continue; }
   if git -C $wt apply $PWD/$d/patch.diff 2>/dev/null; then
-    out=$(BLUEBELL_REPO=$wt ./check $pid --tier quick 2>&1 | grep -E "^VIOLATION|^OK|^FAIL")
+    out=$(BLUEBELL_REPO=$wt RESEED_NO_CORPUS=1 ./check $pid --tier quick 2>&1 | grep -E "^VIOLATION|^OK|^FAIL")
+    # the input on which the seed was caught goes to the corpus (verified on the unchanged tree at the end)
+    rp=$(echo "$out" | grep "^VIOLATION" | grep -v no-failing-input-found | sed 's/.*replay=\([^ ]*\).*/\1/' | head -1)
+    if [ -n "$rp" ] && [ -f "$rp" ]; then mkdir -p corpus/$pid; cp "$rp" corpus/$pid/$n.json; fi
     if echo "$out" | grep -q "^VIOLATION.*no-failing-input-found"; then echo "$n: DETECTED (no failing input) [$pid]"
     elif echo "$out" | grep -q "^VIOLATION"; then echo "$n: DETECTED [$pid]"
     else echo "$n: MISSED [$pid] $(echo $out | cut -c1-100)"; fi
@@ -24,3 +27,9 @@ git -C /repo worktree prune
 git checkout -- evidence 2>/dev/null
 # leave the generated tables and the model in the state of /repo itself
 tools/setup.sh >/dev/null 2>&1
+# every corpus entry must pass on the unchanged tree; one that does not is dropped (and named)
+for f in corpus/*/*.json; do
+  [ -f "$f" ] || continue
+  pid=$(basename $(dirname $f))
+  if ! timeout 300 ./check $pid --replay $f >/dev/null 2>&1; then echo "corpus entry $f fails on the unchanged tree: dropped"; rm -f $f; fi
+done
